@@ -79,6 +79,20 @@ def render(t):
     return repr(t)
 
 
+def _assigned_locals(node):
+    """names of locals assigned (`x = ..`, `x op= ..`, `x.f = ..`) anywhere under node"""
+    from facts import hir_walk
+    out = set()
+    for n in hir_walk(node):
+        if n.get("k") in ("Assign", "AssignOp"):
+            l = n["l"]
+            while isinstance(l, dict) and l.get("k") in ("Field", "Paren", "Index") and "e" in l:
+                l = l["e"]
+            if isinstance(l, dict) and l.get("k") == "Path" and l.get("rk") == "Local":
+                out.add(l["p"])
+    return out
+
+
 def _rooted_in_sym(t):
     while isinstance(t, tuple) and t and t[0] == "proj":
         t = t[1]
@@ -491,9 +505,15 @@ class Evaluator:
                 nm = p.get("n", "p%d" % i) if p.get("k") == "Bind" else "p%d" % i
                 names.append(nm)
                 self.bind(p, ("sym", nm), env)
-            res = self.ev(n["b"], State(env, (), (), 0, None, None), depth + 1)
+            res = [r for r in self.ev(n["b"], State(env, (), (), 0, None, None), depth + 1) if r[0].flow != "diverge"]
+            if len(res) == 1:
+                res = [(res[0][0]._replace(conds=()), res[0][1])]      # the only surviving path: its conditions are assertion preconditions
+            if len(res) > 1 and all(not r[0].events and not r[0].flow and r[1] == res[0][1] and r[0].env == res[0][0].env for r in res):
+                res = [(res[0][0]._replace(conds=()), res[0][1])]
             if len(res) == 1 and not res[0][0].events and not res[0][0].conds and not res[0][0].flow:
-                body = ("app", "|%s|" % ",".join(names), (res[0][1],))
+                sets = tuple(("app", "set " + nm, (v,)) for nm, v in sorted(res[0][0].env.items())
+                             if nm in st.env and st.env[nm] != v and not nm.startswith("@"))
+                body = ("app", "|%s|" % ",".join(names), (res[0][1],) + sets)
         except RecursionError:
             body = None
         return [(st, ("closure", id(n), n, tuple(sorted(st.env.items(), key=lambda kv: kv[0])), body))]
@@ -552,7 +572,11 @@ class Evaluator:
 
     def ev_Ret(self, n, st, depth):
         if "e" in n:
-            return [(s._replace(flow=s.flow or "return", ret=v), ("lit", "!")) for s, v in self.ev(n["e"], st, depth)]
+            out = []
+            for s, v in self.ev(n["e"], st, depth):
+                is_err = v[0] == "ctor" and v[1].endswith("Result::Err")
+                out.append((s._replace(flow=s.flow or ("error" if is_err else "return"), ret=v), ("lit", "!")))
+            return out
         return [(st._replace(flow="return", ret=("lit", "()")), ("lit", "!"))]
 
     def ev_Break(self, n, st, depth):
@@ -702,14 +726,25 @@ class Evaluator:
                 continue
             elem = ("elem", itv)
             env = dict(s.env)
+            for nm in _assigned_locals(some_arm["b"]):
+                if nm in env:
+                    env[nm] = ("sym", nm)          # loop-carried: unknown at the start of an iteration
             self.bind(pat, elem, env)
             inner0 = State(env, s.conds, (), s.fresh, None, None)
             subs = []
             npre = len(s.conds)
             for s2, _ in self.ev(some_arm["b"], inner0, depth):
-                subs.append((s2.conds[npre:], s2.events, s2.flow if s2.flow in ("break", "return", "diverge") else None))
+                evs2 = s2.events
+                for nm in sorted(s.env):
+                    if nm in s2.env and s2.env[nm] != env.get(nm) and not nm.startswith("@"):
+                        evs2 = evs2 + (("set", nm, s2.env[nm]),)
+                subs.append((s2.conds[npre:], evs2, s2.flow if s2.flow in ("break", "return", "diverge", "error") else None))
             ev = ("loop", render(itv), tuple(subs))
-            out.append((self.emit(s, ev), ("lit", "()")))
+            env_after = dict(s.env)
+            for nm in _assigned_locals(some_arm["b"]):
+                if nm in env_after:
+                    env_after[nm] = ("sym", nm)     # and unknown after the loop
+            out.append((self.emit(s, ev)._replace(env=env_after), ("lit", "()")))
         return out
 
     def ev_Loop(self, n, st, depth):
@@ -752,7 +787,7 @@ class Evaluator:
         f = n.get("f") or ("?" + n.get("m", ""))
         out = []
         # emission sink?
-        if f.endswith("Vec::<T, A>::push") or f.endswith("Vec::<T, A>::insert") or f.endswith("Vec::<T, A>::extend"):
+        if f.endswith("Vec::<T, A>::push") or f.endswith("Vec::<T, A>::insert") or f.endswith("Vec::<T, A>::extend") or f.endswith("String::push") or f.endswith("String::push_str"):
             pl = self.place_render(n["r"], st)
             if pl is not None and pl in self.cfg.sinks:
                 for s, vs in self.ev_seq(n["a"], st, depth):
@@ -807,7 +842,15 @@ class Evaluator:
             return [(self.emit(st, ("recurse", sf.split("::")[-1], tuple(vs[1:]))), ("lit", "()"))]
         for t in self.cfg.effect_calls:
             if sf.endswith(t):
-                return [(self.emit(st, ("effect", t.split("::")[-1], tuple(vs))), ("app", sf, tuple(vs)))]
+                st2 = self.emit(st, ("effect", t.split("::")[-1], tuple(vs)))
+                r = n.get("r") if n.get("k") == "MCall" else None
+                while isinstance(r, dict) and r.get("k") in ("AddrOf", "Paren"):
+                    r = r["e"]
+                if isinstance(r, dict) and r.get("k") == "Path" and r.get("rk") == "Local" and r["p"] != "self" and r["p"] in st2.env:
+                    env = dict(st2.env)
+                    env[r["p"]] = ("sym", r["p"])      # mutated through &mut self: value unknown from here on
+                    st2 = st2._replace(env=env)
+                return [(st2, ("app", sf, tuple(vs)))]
         if sf.endswith("Option::<T>::or") or sf.endswith("Option::or"):
             a, b = vs[0], vs[1]
             if a[0] == "none":
@@ -872,6 +915,8 @@ def _render_event(e):
         return "emit " + ", ".join(render(x) for x in e[1:])
     if k == "store":
         return "store %s = %s" % (e[1], render(e[2]))
+    if k == "set":
+        return "%s := %s" % (e[1], render(e[2]))
     if k == "recurse":
         return "recurse %s(%s)" % (e[1], ", ".join(render(x) for x in e[2]))
     if k == "effect":
@@ -1011,4 +1056,74 @@ def display_lines(paths):
             if sub:
                 rec(sub, prefix + [_lab(k, val)])
     rec(rows, [])
+    return out
+
+
+# ---------------------------------------------------------------------- algebraic normal forms of terms
+
+def bool_table(term, atoms, universe_complement=("complement",)):
+    """truth table (tuple of 0/1, one per assignment of `atoms`) of a bit-set expression built from & | ^ ! and
+    complement(x, n); sub-terms whose rendering is in `atoms` are the variables.  None if another operator occurs."""
+    import itertools
+    names = list(atoms)
+
+    def ev(t, a):
+        r = render(t)
+        if r in a:
+            return a[r]
+        if t[0] == "bin" and t[1] in ("&", "|", "^"):
+            x, y = ev(t[2], a), ev(t[3], a)
+            if x is None or y is None:
+                return None
+            return {"&": x & y, "|": x | y, "^": x ^ y}[t[1]]
+        if t[0] == "un" and t[1] == "!":
+            x = ev(t[2], a)
+            return None if x is None else 1 - x
+        if t[0] == "app" and short(t[1]).split("::")[-1] in universe_complement and t[2]:
+            x = ev(t[2][0], a)
+            return None if x is None else 1 - x
+        return None
+    out = []
+    for bits in itertools.product((0, 1), repeat=len(names)):
+        v = ev(term, dict(zip(names, bits)))
+        if v is None:
+            return None
+        out.append(v)
+    return tuple(out)
+
+
+def linear_form(term):
+    """integer-linear normal form {rendered atom: coefficient, 1: constant} of a term built from + - and literals; casts are transparent"""
+    def lf(t, sign, acc):
+        if t[0] == "bin" and t[1] in ("+", "-"):
+            lf(t[2], sign, acc)
+            lf(t[3], sign if t[1] == "+" else -sign, acc)
+            return
+        if t[0] == "lit":
+            try:
+                acc[1] = acc.get(1, 0) + sign * int(str(t[1]).split("_")[0].rstrip("ui3264size"), 0)
+                return
+            except ValueError:
+                pass
+        if t[0] == "app" and short(t[1]).split("::")[-1] in ("unwrap", "expect") and t[2]:
+            lf(t[2][0], sign, acc)
+            return
+        k = render(t)
+        acc[k] = acc.get(k, 0) + sign
+    acc = {}
+    lf(term, 1, acc)
+    return dict((k, v) for k, v in acc.items() if v != 0)
+
+
+def fn_paths(db, fid, **cfgkw):
+    """all non-diverging paths of a function as (conds, events + return value, flow)"""
+    fn = db.fn(fid)
+    ev = Evaluator(Config(db, fid, **cfgkw))
+    out = []
+    for st, v in ev.run_fn(fn):
+        if st.flow in ("diverge",):
+            continue
+        ret = st.ret if st.flow == "return" else v
+        fl = st.flow if st.flow == "error" else None
+        out.append((st.conds, st.events + ((("set", "<ret>", ret),) if ret is not None and fl is None else ()), fl, st))
     return out
